@@ -30,7 +30,7 @@ VERDICTS = (
     'assertion failed', 'possible arithmetic underflow/overflow', 'possible division by zero',
     'possible bit shift underflow/overflow', 'decreases not satisfied', 'loop invariant',
     'cannot show invariant', 'unreachable', 'possible', 'might not', 'recommendation not met',
-    'could not prove termination', 'failed to satisfy', 'fails to satisfy', 'not satisfied',
+    'could not prove termination', 'failed to satisfy', 'fails to satisfy', 'not satisfied', 'unable to prove',
 )
 UNDECIDED = ('rlimit', 'resource limit', 'timed out', 'timeout', 'while verifying', 'z3')
 
